@@ -3,11 +3,14 @@
    `C38 spec [ev,…] T|F`                 → `ok [clause,…]`       Spec.violations of an observed trace
    `C38 runsync <func> <timeout|~>`      → `ok outcome`          Model.runSync
    `C38 runsyncspec <func> <timeout|~>`  → `ok outcome`          Spec.runSyncSpec
+   `C38 xthread <self> [[call,running|~,id]|[inject,id]|[turn],…]` → `ok [soon|threadsafe,…] [ran…] [ready…] T|F`
+   `C38 xspec [sched…] [ran…]`           → `ok [clause,…]`       XThread.violations
    tbl = [[[act,…],fin],…]; act = [addCb,k] | [addTmo,form,arg,k,name] | [rmTmo,name] | [busy,d] | [addFut,fid,k] |
    [resolve,fid,T|F]; func = [raises] | [retNone] | [retValue] | [awaitable,d|~,T|F] | [stopsLoop,d]
 -/
 import TornadoModel.Base.Wire
 import TornadoModel.C38.Spec
+import TornadoModel.C38.XThread
 namespace TornadoModel.C38.Drv
 open TornadoModel TornadoModel.Wire TornadoModel.C38
 
@@ -89,6 +92,16 @@ def encOutcome : Outcome → V
   | .result => .atom "result" | .userError => .atom "userError" | .badYield => .atom "badYield"
   | .timeoutError => .atom "timeoutError" | .runtimeError => .atom "runtimeError" | .hang => .atom "hang"
 
+def decXOp (v : V) : Option XThread.Op := do
+  match ← v.list? with
+  | [.atom "call", r, id] => if r.isNone then pure (.call none (← id.nat?)) else pure (.call (some (← r.nat?)) (← id.nat?))
+  | [.atom "inject", id] => pure (.inject (← id.nat?))
+  | [.atom "turn"] => pure .turn
+  | _ => none
+
+def encPath : XThread.Path → V
+  | .soon => .atom "soon" | .threadsafe => .atom "threadsafe"
+
 /-- every callback index mentioned by the program is defined -/
 def actOk (sz : Nat) : Act → Bool
   | .addCb k => k < sz
@@ -119,6 +132,17 @@ def handle (toks : List String) : String :=
     | some "runsyncspec", [f, t] =>
       match decFunc f, decTimeout t with
       | some f, some t => ok [encOutcome (Spec.runSyncSpec f t)]
+      | _, _ => err "bad-arg"
+    | some "xthread", [self, ops] =>
+      match self.nat?, ops.list? >>= (·.mapM decXOp) with
+      | some self, some ops =>
+        if !(XThread.wf self {} ops) then err "bad-prog" else
+        let l := XThread.run self {} ops
+        ok [.list (l.paths.map encPath), .list (l.ran.map n), .list (l.ready.map n), V.ofBool l.blocked]
+      | _, _ => err "bad-arg"
+    | some "xspec", [sched, ran] =>
+      match sched.list? >>= (·.mapM V.nat?), ran.list? >>= (·.mapM V.nat?) with
+      | some sched, some ran => ok [.list ((XThread.violations sched ran).map V.atom)]
       | _, _ => err "bad-arg"
     | _, _ => err "bad-cmd"
 
